@@ -501,3 +501,589 @@ Theorem static_bound_refuted :
   static_bound (CUn UNeg (CParen (CBin OLt (CNum 3 (PFlt f_1_5)) (CNum 3 (PFlt f_1_6))))) = BVal 0 /\
   rt_bound (CUn UNeg (CParen (CBin OLt (CNum 3 (PFlt f_1_5)) (CNum 3 (PFlt f_1_6))))) = RVal (CL 1).
 Proof. vm_compute. split; reflexivity. Qed.
+
+
+
+
+(* ---------- DOUBLE operands ---------- *)
+
+Definition dbl (x : fl) : cexpr := CNum 4 (PFlt x).
+Definition neg_zero : fl := FFin true 0 0.
+
+Transparent push_lit.
+Lemma exec_lit_dbl m x : x <> neg_zero ->
+  exists i, push_lit 4 (PFlt x) = CgOk [i] /\ forall s, exec m i s = R tt (st_push s (CD x)).
+Proof.
+  intros Hx. unfold neg_zero in Hx.
+  destruct x as [| n | n mm e].
+  - eexists; split; [reflexivity|]. intros; reflexivity.
+  - eexists; split; [reflexivity|]. intros; reflexivity.
+  - destruct n; destruct mm as [|[p|p|]|p]; destruct e as [|[q|q|]|q];
+      try congruence; eexists; (split; [reflexivity|]); intros; reflexivity.
+Qed.
+Opaque push_lit.
+
+Definition flop (op : binop) (x y : fl) : fl :=
+  match op with OAdd => fadd x y | OSub => fsub x y | OMul => fmul x y | _ => fdiv x y end.
+
+Local Opaque fadd fsub fmul fdiv.
+
+(* + - * on two DOUBLE literals: both sides apply the same Fl operation to the
+   same operands; a result that overflows to inf (or is NaN) is that same inf /
+   NaN on both sides, DOUBLE cells hold every float and nothing traps *)
+Theorem fold_float_arith_sound : forall op x y, In op [OAdd; OSub; OMul] ->
+  x <> neg_zero -> y <> neg_zero ->
+  fold (CBin op (dbl x) (dbl y)) = Folded 4 (PFlt (flop op x y)) /\
+  rt_eval (CBin op (dbl x) (dbl y)) = RVal (CD (flop op x y)).
+Proof.
+  intros op x y Hop Hx Hy.
+  set (m := expr_module []).
+  destruct (exec_lit_dbl m x Hx) as (ia & Pa & Ea).
+  destruct (exec_lit_dbl m y Hy) as (ib & Pb & Eb).
+  simpl in Hop. unfold dbl.
+  destruct Hop as [<- | [<- | [<- | []]]]; (split; [reflexivity|]);
+    unfold rt_eval, cg_expr; cbn -[push_lit exec]; rewrite Pa, Pb; cbn -[push_lit exec];
+    fold m; unfold bind; rewrite Ea, Eb; reflexivity.
+Qed.
+
+(* / on two DOUBLE literals: a zero divisor is ZeroDivisionError in the folder
+   (not folded) and DIVISION_BY_ZERO on the machine; otherwise the same fdiv *)
+Theorem fold_float_div_sound : forall x y, x <> neg_zero -> y <> neg_zero ->
+  (is_zero y = true ->
+     fold (CBin ODiv (dbl x) (dbl y)) = NotFolded /\
+     rt_eval (CBin ODiv (dbl x) (dbl y)) = RTrap T_DIVISION_BY_ZERO) /\
+  (is_zero y = false ->
+     fold (CBin ODiv (dbl x) (dbl y)) = Folded 4 (PFlt (fdiv x y)) /\
+     rt_eval (CBin ODiv (dbl x) (dbl y)) = RVal (CD (fdiv x y))).
+Proof.
+  intros x y Hx Hy.
+  set (m := expr_module []).
+  destruct (exec_lit_dbl m x Hx) as (ia & Pa & Ea).
+  destruct (exec_lit_dbl m y Hy) as (ib & Pb & Eb).
+  unfold dbl.
+  split; intros Hz; (split; [unfold fold; cbn; rewrite Hz; reflexivity|]);
+    unfold rt_eval, cg_expr; cbn -[push_lit exec]; rewrite Pa, Pb; cbn -[push_lit exec];
+    fold m; unfold bind; rewrite Ea, Eb; cbn; rewrite Hz; reflexivity.
+Qed.
+
+(* ---------- the folder after the fix ---------- *)
+
+Lemma ty_cases ty :
+  ty = 1 \/ ty = 2 \/ ty = 3 \/ ty = 4 \/ ty = 5 \/ (forall v, checked ty v = None).
+Proof.
+  destruct ty as [|p|p]; try (repeat right; intros [z|f|s]; reflexivity).
+  destruct p as [[q|q|]|[q|q|]|]; auto 10;
+    try (repeat right; intros [z|f|s]; reflexivity);
+    destruct q as [r|r|]; auto 10; repeat right; intros [z|f|s]; reflexivity.
+Qed.
+
+Local Opaque of_Z fcmp fround to_single in_int in_long.
+
+Lemma checked_cell ty v v' : checked ty v = Some v' ->
+  exists c, cell_of_val ty v' = Some c /\ forall s, mk_cell ty v s = R c s.
+Proof.
+  intros H.
+  destruct (ty_cases ty) as [->|[->|[->|[->|[->|Hn]]]]]; [..| rewrite Hn in H; discriminate];
+    destruct v as [z|f|s0]; cbn in H; try discriminate.
+  - destruct (in_int z) eqn:E; inversion H; subst.
+    eexists; split; [reflexivity|]. intros; cbn. rewrite E. reflexivity.
+  - destruct (fcmp (of_Z (-32768)) f) as [[]|] eqn:E1; try discriminate;
+      destruct (fcmp f (of_Z 32767)) as [[]|] eqn:E2; try discriminate;
+      destruct (fround f) as [z|] eqn:E3; try discriminate; inversion H; subst;
+      (eexists; split; [reflexivity|]); intros; cbn; rewrite E1, E2, E3; reflexivity.
+  - destruct (in_long z) eqn:E; inversion H; subst.
+    eexists; split; [reflexivity|]. intros; cbn. rewrite E. reflexivity.
+  - destruct (fcmp (of_Z (-2147483648)) f) as [[]|] eqn:E1; try discriminate;
+      destruct (fcmp f (of_Z 2147483648)) as [[]|] eqn:E2; try discriminate;
+      destruct (fround f) as [z|] eqn:E3; try discriminate; inversion H; subst;
+      (eexists; split; [reflexivity|]); intros; cbn; rewrite E1, E2, E3; reflexivity.
+  - destruct (to_single (of_Z z)) as [g|] eqn:E; try discriminate; inversion H; subst.
+    eexists; split; [reflexivity|]. intros; cbn. rewrite E. reflexivity.
+  - destruct (to_single f) as [g|] eqn:E; try discriminate; inversion H; subst.
+    eexists; split; [reflexivity|]. intros; cbn. rewrite E. reflexivity.
+  - inversion H; subst. eexists; split; [reflexivity|]. intros; reflexivity.
+  - inversion H; subst. eexists; split; [reflexivity|]. intros; reflexivity.
+  - inversion H; subst. eexists; split; [reflexivity|]. intros; reflexivity.
+Qed.
+
+(* push ty v when checked says it is holdable *)
+Lemma push_checked ty v v' : checked ty v = Some v' ->
+  exists c, cell_of_val ty v' = Some c /\
+            forall s, push ty v s = R tt (st_push s c).
+Proof.
+  intros H. destruct (checked_cell ty v v' H) as (c & Hc & Hm).
+  exists c. split; [assumption|]. intros s. unfold push, bind. rewrite Hm. reflexivity.
+Qed.
+
+
+Lemma cell_cases ty v c : cell_of_val ty v = Some c ->
+  (ty = 1 /\ exists z, v = PInt z /\ c = CI z) \/
+  (ty = 2 /\ exists z, v = PInt z /\ c = CL z) \/
+  (ty = 3 /\ exists f, v = PFlt f /\ c = CS f) \/
+  (ty = 4 /\ exists f, v = PFlt f /\ c = CD f) \/
+  (ty = 5 /\ exists t, v = PStrV t /\ c = CStr t).
+Proof.
+  intros H.
+  destruct ty as [|p|p]; try (destruct v; discriminate).
+  destruct p as [[q|q|]|[q|q|]|]; try (destruct v; discriminate);
+    try (destruct q as [r|r|]; try (destruct v; discriminate));
+    destruct v; try discriminate; inversion H; subst; eauto 12.
+Qed.
+
+Ltac use_push Hk s st0 :=
+  let cc := fresh "cc" in let Hcc := fresh "Hcc" in let Hp := fresh "Hp" in
+  destruct (push_checked _ _ _ Hk) as (cc & Hcc & Hp);
+  exists cc; split; [assumption|]; rewrite Hp; reflexivity.
+
+Lemma run_conv m from to v a c s st0 :
+  conv_fixed from to v = FxV a -> cell_of_val from v = Some c ->
+  exists ca, cell_of_val to a = Some ca /\
+    run_instrs m (conv_code from to) (set_stack s (c :: st0)) = R tt (set_stack s (ca :: st0)).
+Proof.
+  intros H Hc. unfold conv_fixed in H. unfold conv_code.
+  destruct (from =? to) eqn:E.
+  - apply Z.eqb_eq in E. subst to. inversion H; subst. exists c. split; [assumption|reflexivity].
+  - destruct (cell_cases _ _ _ Hc) as [(-> & z & -> & ->) | [(-> & z & -> & ->) |
+      [(-> & f & -> & ->) | [(-> & f & -> & ->) | (-> & t & -> & ->)]]]];
+      try discriminate; unfold fx_checked in H; cbn -[checked push];
+      unfold bind; cbn -[checked push].
+    + destruct (checked to (if (to =? 3) || (to =? 4) then PFlt (of_Z z) else PInt z)) as [w|] eqn:Hk;
+        [|discriminate]. inversion H; subst. use_push Hk s st0.
+    + destruct (checked to (if (to =? 3) || (to =? 4) then PFlt (of_Z z) else PInt z)) as [w|] eqn:Hk;
+        [|discriminate]. inversion H; subst. use_push Hk s st0.
+    + destruct ((to =? 1) || (to =? 2)).
+      * destruct f as [| n | n mm e]; try discriminate.
+        destruct (fround (FFin n mm e)) as [z|]; [|discriminate].
+        destruct (checked to (PInt z)) as [w|] eqn:Hk; [|discriminate]. inversion H; subst.
+        use_push Hk s st0.
+      * destruct (checked to (PFlt f)) as [w|] eqn:Hk; [|discriminate]. inversion H; subst.
+        use_push Hk s st0.
+    + destruct ((to =? 1) || (to =? 2)).
+      * destruct f as [| n | n mm e]; try discriminate.
+        destruct (fround (FFin n mm e)) as [z|]; [|discriminate].
+        destruct (checked to (PInt z)) as [w|] eqn:Hk; [|discriminate]. inversion H; subst.
+        use_push Hk s st0.
+      * destruct (checked to (PFlt f)) as [w|] eqn:Hk; [|discriminate]. inversion H; subst.
+        use_push Hk s st0.
+Qed.
+
+
+(* ---------- operators ---------- *)
+
+Lemma str_cmp_range x y r : cmp_vals (CStr x) (CStr y) = Some r -> r = -1 \/ r = 0 \/ r = 1.
+Proof.
+  revert y r. induction x as [|c x IH]; intros [|d y] r H; simpl in H.
+  - inversion H; auto.
+  - inversion H; auto.
+  - inversion H; auto.
+  - destruct (c <? d); [inversion H; auto|]. destruct (c >? d); [inversion H; auto|].
+    apply (IH y r H).
+Qed.
+
+Transparent in_int.
+Lemma in_int_m1 : in_int (-1) = true. Proof. reflexivity. Qed.
+Lemma in_int_0 : in_int 0 = true. Proof. reflexivity. Qed.
+Lemma in_int_1 : in_int 1 = true. Proof. reflexivity. Qed.
+Opaque in_int.
+
+(* the comparison tail: a three-way result r on the stack, then eq/ne/lt/gt/le/ge *)
+Lemma run_cmp_tail m i op r s st0 :
+  r = -1 \/ r = 0 \/ r = 1 ->
+  (op, i) = (OEq, IEq) \/ (op, i) = (ONe, INe) \/ (op, i) = (OLt, ILt) \/
+  (op, i) = (OGt, IGt) \/ (op, i) = (OLe, ILe) \/ (op, i) = (OGe, IGe) ->
+  exec m i (set_stack s (CI r :: st0)) = R tt (set_stack s (CI (cmp_test op r) :: st0)).
+Proof.
+  intros Hr Hop.
+  destruct Hop as [E | [E | [E | [E | [E | E]]]]]; inversion E; subst;
+    destruct Hr as [-> | [-> | ->]]; cbn; unfold push, bind; cbn;
+    rewrite ?in_int_m1, ?in_int_0, ?in_int_1; reflexivity.
+Qed.
+
+Definition cmp_instr (op : binop) : instr :=
+  match op with
+  | OEq => IEq | ONe => INe | OLt => ILt | OGt => IGt | OLe => ILe | _ => IGe
+  end.
+
+Lemma op_code_cmp op : is_cmp op = true -> op_code op = [ICmp; cmp_instr op].
+Proof. destruct op; try discriminate; reflexivity. Qed.
+
+Lemma cmp_instr_ok op : is_cmp op = true ->
+  (op, cmp_instr op) = (OEq, IEq) \/ (op, cmp_instr op) = (ONe, INe) \/
+  (op, cmp_instr op) = (OLt, ILt) \/ (op, cmp_instr op) = (OGt, IGt) \/
+  (op, cmp_instr op) = (OLe, ILe) \/ (op, cmp_instr op) = (OGe, IGe).
+Proof. destruct op; try discriminate; simpl; auto 10. Qed.
+
+(* cmp on two cells of the same type leaves the three-way result of cmp3 *)
+Lemma run_icmp m ot a b ca cb r s st0 :
+  cell_of_val ot a = Some ca -> cell_of_val ot b = Some cb -> cmp3 a b = Some r ->
+  (r = -1 \/ r = 0 \/ r = 1) /\
+  exec m ICmp (set_stack s (cb :: ca :: st0)) = R tt (set_stack s (CI r :: st0)).
+Proof.
+  intros Ha Hb Hc.
+  destruct (cell_cases _ _ _ Ha) as [(-> & x & -> & ->) | [(-> & x & -> & ->) |
+      [(-> & x & -> & ->) | [(-> & x & -> & ->) | (-> & x & -> & ->)]]]];
+    destruct (cell_cases _ _ _ Hb) as [(E & y & -> & ->) | [(E & y & -> & ->) |
+      [(E & y & -> & ->) | [(E & y & -> & ->) | (E & y & -> & ->)]]]]; try discriminate E;
+    clear E Ha Hb; unfold cmp3 in Hc.
+  - inversion Hc; subst. cbn; unfold push, bind; cbn.
+    destruct (x ?= y); (split; [auto|]); rewrite ?in_int_m1, ?in_int_0, ?in_int_1; reflexivity.
+  - inversion Hc; subst. cbn; unfold push, bind; cbn.
+    destruct (x ?= y); (split; [auto|]); rewrite ?in_int_m1, ?in_int_0, ?in_int_1; reflexivity.
+  - inversion Hc; subst. cbn; unfold push, bind; cbn.
+    destruct (fcmp x y) as [[]|]; (split; [auto|]); rewrite ?in_int_m1, ?in_int_0, ?in_int_1; reflexivity.
+  - inversion Hc; subst. cbn; unfold push, bind; cbn.
+    destruct (fcmp x y) as [[]|]; (split; [auto|]); rewrite ?in_int_m1, ?in_int_0, ?in_int_1; reflexivity.
+  - pose proof (str_cmp_range _ _ _ Hc) as Hr. split; [assumption|].
+    cbn -[cmp_vals]. rewrite Hc. unfold push, bind.
+    destruct Hr as [-> | [-> | ->]]; cbn; rewrite ?in_int_m1, ?in_int_0, ?in_int_1; reflexivity.
+Qed.
+
+
+Local Opaque py_pow fadd fsub fmul fdiv checked.
+
+Lemma run_two m i j s s1 s2 :
+  exec m i s = R tt s1 -> exec m j s1 = R tt s2 -> run_instrs m [i; j] s = R tt s2.
+Proof. intros H1 H2. cbn [run_instrs]. unfold bind. rewrite H1, H2. reflexivity. Qed.
+
+Lemma run_binop m op ot T a b w v ca cb s st0 :
+  raw_op op a b = RawV w -> checked T w = Some v ->
+  cell_of_val ot a = Some ca -> cell_of_val ot b = Some cb ->
+  (if is_cmp op then T = 1 else T = ot) ->
+  exists cv, cell_of_val T v = Some cv /\
+    run_instrs m (op_code op) (set_stack s (cb :: ca :: st0)) = R tt (set_stack s (cv :: st0)).
+Proof.
+  intros Hraw Hk Ha Hb HT. unfold raw_op in Hraw.
+  destruct (is_cmp op) eqn:Hcmp.
+  - subst T. destruct (cmp3 a b) as [r|] eqn:Hc; [|discriminate]. inversion Hraw; subst w.
+    destruct (run_icmp m ot a b ca cb r s st0 Ha Hb Hc) as (Hr & Hi).
+    pose proof (run_cmp_tail m (cmp_instr op) op r s st0 Hr (cmp_instr_ok op Hcmp)) as Ht.
+    destruct (push_checked _ _ _ Hk) as (cc & Hcc & _).
+    assert (Hv : v = PInt (cmp_test op r)).
+    { Transparent checked. unfold checked in Hk. Opaque checked.
+      destruct (in_int (cmp_test op r)); inversion Hk; reflexivity. }
+    subst v. exists (CI (cmp_test op r)). split; [reflexivity|].
+    rewrite (op_code_cmp op Hcmp). apply (run_two _ _ _ _ _ _ Hi Ht).
+  - subst T.
+    destruct (cell_cases _ _ _ Ha) as [(-> & x & -> & ->) | [(-> & x & -> & ->) |
+        [(-> & x & -> & ->) | [(-> & x & -> & ->) | (-> & x & -> & ->)]]]];
+      destruct (cell_cases _ _ _ Hb) as [(E & y & -> & ->) | [(E & y & -> & ->) |
+        [(E & y & -> & ->) | [(E & y & -> & ->) | (E & y & -> & ->)]]]]; try discriminate E;
+      clear E Ha Hb;
+      destruct op; try discriminate Hcmp; try discriminate Hraw; cbn in Hraw;
+      try (destruct (y =? 0) eqn:Ey; [discriminate Hraw|]);
+      try (destruct (is_zero y) eqn:Ey; [discriminate Hraw|]);
+      try (match type of Hraw with context [py_pow ?p ?q] =>
+             destruct (py_pow p q) eqn:Ep; try discriminate Hraw end);
+      inversion Hraw; subst w;
+      destruct (push_checked _ _ _ Hk) as (cc & Hcc & Hp);
+      exists cc; (split; [assumption|]);
+      cbn -[push]; unfold bind; cbn -[push];
+      rewrite ?Ey, ?Ep; cbn -[push]; rewrite Hp; reflexivity.
+Qed.
+
+
+(* ---------- unary operators ---------- *)
+
+Lemma run_neg m ty v w c s st0 :
+  cell_of_val ty v = Some c ->
+  match v with
+  | PInt z => checked ty (PInt (- z))
+  | PFlt f => checked ty (PFlt (fneg f))
+  | PStrV _ => None
+  end = Some w ->
+  exists cw, cell_of_val ty w = Some cw /\
+    exec m INeg (set_stack s (c :: st0)) = R tt (set_stack s (cw :: st0)).
+Proof.
+  intros Hc Hk.
+  destruct (cell_cases _ _ _ Hc) as [(-> & x & -> & ->) | [(-> & x & -> & ->) |
+      [(-> & x & -> & ->) | [(-> & x & -> & ->) | (-> & x & -> & ->)]]]]; try discriminate Hk;
+    destruct (push_checked _ _ _ Hk) as (cc & Hcc & Hp); exists cc; (split; [assumption|]);
+    cbn -[push]; unfold bind; cbn -[push]; rewrite Hp; reflexivity.
+Qed.
+
+Lemma run_not m rty z c w s st0 :
+  cell_of_val rty (PInt z) = Some c -> checked rty (PInt (Z.lnot z)) = Some w ->
+  exists cw, cell_of_val rty w = Some cw /\
+    exec m INot (set_stack s (c :: st0)) = R tt (set_stack s (cw :: st0)).
+Proof.
+  intros Hc Hk.
+  destruct (cell_cases _ _ _ Hc) as [(-> & x & E & ->) | [(-> & x & E & ->) |
+      [(-> & x & E & ->) | [(-> & x & E & ->) | (-> & x & E & ->)]]]]; try discriminate E;
+    inversion E; subst x;
+    destruct (push_checked _ _ _ Hk) as (cc & Hcc & Hp); exists cc; (split; [assumption|]);
+    cbn -[push]; unfold bind; cbn -[push]; rewrite Hp; reflexivity.
+Qed.
+
+(* ---------- literals ---------- *)
+
+Lemma is_num_cases ty : is_num ty = true -> ty = 1 \/ ty = 2 \/ ty = 3 \/ ty = 4.
+Proof. unfold is_num. lia. Qed.
+
+Lemma py_type_conv_int ty v v' : ty = 1 \/ ty = 2 -> py_type_conv ty v = FVal v' ->
+  exists z, v' = PInt z.
+Proof.
+  intros Hty H. unfold py_type_conv in H.
+  destruct Hty as [-> | ->]; cbn in H;
+    (destruct v as [z|f|t];
+     [ inversion H; eauto
+     | destruct f as [| n | n mm e]; try discriminate;
+       destruct (ftrunc (FFin n mm e)); inversion H; eauto
+     | destruct (negb (ascii t)); try discriminate;
+       destruct (py_int t); inversion H; eauto ]).
+Qed.
+
+Lemma py_type_conv_flt ty v v' : ty = 3 \/ ty = 4 -> py_type_conv ty v = FVal v' ->
+  exists f, v' = PFlt f.
+Proof.
+  intros Hty H. unfold py_type_conv in H.
+  destruct Hty as [-> | ->]; cbn in H;
+    (destruct v as [z|f|t];
+     [ destruct (of_Z_opt z); inversion H; eauto
+     | inversion H; eauto
+     | destruct (negb (ascii t)); try discriminate;
+       destruct (py_float t); inversion H; eauto ]).
+Qed.
+
+Transparent checked push_lit of_Z.
+
+Lemma run_lit_fixed m ty v' v'' : is_num ty = true -> (ty = 1 \/ ty = 2 -> exists z, v' = PInt z) ->
+  (ty = 3 \/ ty = 4 -> exists f, v' = PFlt f) -> checked ty v' = Some v'' ->
+  exists i c, push_lit_fixed ty v' = CgOk [i] /\ cell_of_val ty v'' = Some c /\
+    forall s st0, exec m i (set_stack s st0) = R tt (set_stack s (c :: st0)).
+Proof.
+  intros Hn Hi Hf Hk.
+  destruct (is_num_cases ty Hn) as [-> | [-> | [-> | ->]]].
+  - destruct Hi as (z & ->); auto. cbn in Hk. destruct (in_int z) eqn:E; inversion Hk; subst.
+    destruct (exec_lit_int m 1 z (or_introl eq_refl) E) as (i & Pi & Ei).
+    exists i, (CI z). repeat split; auto. intros. rewrite Ei. reflexivity.
+  - destruct Hi as (z & ->); auto. cbn in Hk. destruct (in_long z) eqn:E; inversion Hk; subst.
+    destruct (exec_lit_int m 2 z (or_intror eq_refl) E) as (i & Pi & Ei).
+    exists i, (CL z). repeat split; auto. intros. rewrite Ei. reflexivity.
+  - destruct Hf as (f & ->); auto. cbn in Hk.
+    destruct (to_single f) as [g|] eqn:E; inversion Hk; subst.
+    destruct f as [| n | n mm e];
+      [ | | destruct n; destruct mm as [|[p|p|]|p]; destruct e as [|[q|q|]|q] ];
+      cbn; rewrite ?E;
+      (eexists; eexists; split; [reflexivity|]; split; [reflexivity|]);
+      intros; cbn; unfold push, bind; cbn;
+      try (rewrite E; reflexivity);
+      try (change (of_Z 0) with (FFin false 0 0) in *; rewrite E; reflexivity);
+      try (change (fzero false) with (FFin false 0 0) in *; rewrite E; reflexivity);
+      try (change (of_Z 1) with (FFin false 1 0) in *; rewrite E; reflexivity);
+      try (change (of_Z (-1)) with (FFin true 1 0) in *; rewrite E; reflexivity);
+      try (change (of_Z 2) with (FFin false 1 1) in *; rewrite E; reflexivity);
+      try (change (of_Z (-2)) with (FFin true 1 1) in *; rewrite E; reflexivity).
+  - destruct Hf as (f & ->); auto. cbn in Hk. inversion Hk; subst.
+    destruct f as [| n | n mm e];
+      [ | | destruct n; destruct mm as [|[p|p|]|p]; destruct e as [|[q|q|]|q] ];
+      cbn; (eexists; eexists; split; [reflexivity|]; split; [reflexivity|]);
+      intros; reflexivity.
+Qed.
+
+Opaque checked push_lit of_Z.
+
+
+(* ---------- string literals ---------- *)
+
+Fixpoint strs (e : cexpr) : list str :=
+  match e with
+  | CNum _ _ => []
+  | CStrLit s => [s]
+  | CBin _ l r => strs l ++ strs r
+  | CUn _ a => strs a
+  | CParen a => strs a
+  end.
+
+Lemma str_index_spec s l : forall k i, str_index s l k = Some i ->
+  k <= i /\ nth_error l (Z.to_nat (i - k)) = Some s.
+Proof.
+  induction l as [|x r IH]; intros k i H; simpl in H; [discriminate|].
+  destruct (str_eqb x s) eqn:E.
+  - inversion H; subst. apply str_eqb_eq in E. subst. split; [lia|].
+    replace (i - i) with 0 by lia. reflexivity.
+  - destruct (IH _ _ H) as (Hle & Hn). split; [lia|].
+    replace (Z.to_nat (i - k)) with (S (Z.to_nat (i - (k + 1)))) by lia. exact Hn.
+Qed.
+
+Lemma str_index_in s l : forall k, In s l -> exists i, str_index s l k = Some i.
+Proof.
+  induction l as [|x r IH]; intros k H; [destruct H|]. simpl.
+  destruct (str_eqb x s) eqn:E; [eauto|].
+  destruct H as [-> | H]; [|eauto].
+  assert (str_eqb s s = true) by (apply str_eqb_eq; reflexivity). congruence.
+Qed.
+
+Lemma nthZ_of_nth {A} (l : list A) i x : 0 <= i -> nth_error l (Z.to_nat i) = Some x -> nthZ l i = Some x.
+Proof.
+  intros Hi Hn. unfold nthZ.
+  assert (Hlt : (Z.to_nat i < length l)%nat) by (apply nth_error_Some; congruence).
+  replace (i <? 0) with false by lia. cbn.
+  replace ((i <? 0) || (i >=? Z.of_nat (length l))) with false by lia. exact Hn.
+Qed.
+
+Lemma run_str m lits t : m_literals m = lits -> In t lits ->
+  exists i, str_index t lits 0 = Some i /\
+    forall s st0, exec m (IPushStr i) (set_stack s st0) = R tt (set_stack s (CStr t :: st0)).
+Proof.
+  intros Hm Hin. destruct (str_index_in t lits 0 Hin) as (i & Hi). exists i. split; [assumption|].
+  destruct (str_index_spec _ _ _ _ Hi) as (Hle & Hn). rewrite Z.sub_0_r in Hn.
+  intros s st0. cbn. rewrite Hm, (nthZ_of_nth _ _ _ Hle Hn). reflexivity.
+Qed.
+
+Lemma lits_of_incl e : forall acc t, In t acc -> In t (lits_of e acc).
+Proof.
+  induction e; intros acc t H; simpl; auto.
+  destruct (str_index s acc 0); auto. apply in_or_app; auto.
+Qed.
+
+Lemma lits_of_strs e : forall acc t, In t (strs e) -> In t (lits_of e acc).
+Proof.
+  induction e; intros acc t H; simpl in *; auto.
+  - destruct H.
+  - destruct H as [<- | []]. destruct (str_index s acc 0) eqn:E.
+    + destruct (str_index_spec _ _ _ _ E) as (_ & Hn). eapply nth_error_In; eauto.
+    + apply in_or_app; right; simpl; auto.
+  - apply in_app_or in H. destruct H as [H | H].
+    + apply lits_of_incl. apply IHe1; assumption.
+    + apply IHe2; assumption.
+Qed.
+
+(* ---------- the generated code computes what the fixed folder computes ---------- *)
+
+Lemma fx_checked_some ty v w : fx_checked ty v = FxV w -> checked ty v = Some w.
+Proof. unfold fx_checked. destruct (checked ty v); intros H; inversion H; reflexivity. Qed.
+
+Lemma fixed_run m lits : m_literals m = lits -> forall e v,
+  (forall t, In t (strs e) -> In t lits) -> eval_fixed e = FxV v ->
+  type_ok_fixed e = true /\
+  exists l c, cg_fixed lits e = CgOk l /\ cell_of_val (static_type_fixed e) v = Some c /\
+    forall s st0, run_instrs m l (set_stack s st0) = R tt (set_stack s (c :: st0)).
+Proof.
+  intros Hm. induction e as [ty v0 | t | op l IHl r IHr | op a IHa | a IHa]; intros v Hs He.
+  - (* literal *)
+    cbn [eval_fixed] in He. destruct (py_type_conv ty v0) as [v'| | | | |] eqn:Ep; try discriminate.
+    destruct (is_num ty) eqn:Hn; [|discriminate]. apply fx_checked_some in He.
+    destruct (run_lit_fixed m ty v' v Hn
+                (fun H => py_type_conv_int ty v0 v' H Ep) (fun H => py_type_conv_flt ty v0 v' H Ep) He)
+      as (i & c & Pi & Hc & Ei).
+    split; [exact Hn|]. exists [i], c. cbn [cg_fixed static_type_fixed]. rewrite Ep.
+    repeat split; auto. intros. cbn [run_instrs]. unfold bind. rewrite Ei. reflexivity.
+  - (* string literal *)
+    cbn [eval_fixed] in He. inversion He as [Hv]; clear He; subst v.
+    destruct (run_str m lits t Hm (Hs t (or_introl eq_refl))) as (i & Hi & Ei).
+    split; [reflexivity|]. exists [IPushStr i], (CStr t). cbn [cg_fixed static_type_fixed]. rewrite Hi.
+    repeat split; auto. intros. cbn [run_instrs]. unfold bind. rewrite Ei. reflexivity.
+  - (* binary *)
+    cbn [eval_fixed] in He.
+    set (lt := static_type_fixed l) in *. set (rt := static_type_fixed r) in *.
+    destruct ((is_num lt && is_num rt) || ((lt =? 5) && (rt =? 5) && (is_cmp op || is_add op))) eqn:Hg;
+      [|discriminate]. cbn [negb] in He.
+    destruct (eval_fixed l) as [lv| |] eqn:El; try discriminate. cbn [fx_bind] in He.
+    destruct (conv_fixed lt (operand_type_fixed op lt rt) lv) as [xa| |] eqn:Ca; try discriminate.
+    cbn [fx_bind] in He.
+    destruct (eval_fixed r) as [rv| |] eqn:Er; try discriminate. cbn [fx_bind] in He.
+    destruct (conv_fixed rt (operand_type_fixed op lt rt) rv) as [xb| |] eqn:Cb; try discriminate.
+    cbn [fx_bind] in He.
+    destruct (raw_op op xa xb) as [w| |] eqn:Ho; try discriminate. apply fx_checked_some in He.
+    destruct (IHl lv (fun t H => Hs t (in_or_app _ _ _ (or_introl H))) eq_refl)
+      as (Tl & ll & cl & Gl & Vl & Rl).
+    destruct (IHr rv (fun t H => Hs t (in_or_app _ _ _ (or_intror H))) eq_refl)
+      as (Tr & lr & cr & Gr & Vr & Rr).
+    fold lt in Vl. fold rt in Vr.
+    split; [cbn [type_ok_fixed]; rewrite Tl, Tr; fold lt; fold rt; rewrite Hg; reflexivity|].
+    set (ot := operand_type_fixed op lt rt) in *.
+    assert (HT : if is_cmp op then bin_type_fixed op lt rt = 1
+                 else bin_type_fixed op lt rt = ot).
+    { unfold ot, operand_type_fixed. destruct (is_cmp op) eqn:Hc; [|reflexivity].
+      destruct op; try discriminate Hc; reflexivity. }
+    cbn [cg_fixed static_type_fixed]. fold lt. fold rt. fold ot. rewrite Gl, Gr. cbn [cg_app].
+    eexists.
+    assert (Hrun : forall s st0, exists cv,
+              cell_of_val (bin_type_fixed op lt rt) v = Some cv /\
+              run_instrs m (ll ++ conv_code lt ot ++ lr ++ conv_code rt ot ++ op_code op)
+                (set_stack s st0) = R tt (set_stack s (cv :: st0))).
+    { intros s st0.
+      destruct (run_conv m lt ot lv xa cl s st0 Ca Vl) as (ca & Va & Rca).
+      destruct (run_conv m rt ot rv xb cr s (ca :: st0) Cb Vr) as (cb & Vb & Rcb).
+      destruct (run_binop m op ot _ xa xb w v ca cb s st0 Ho He Va Vb HT) as (cv & Vv & Rop).
+      exists cv. split; [assumption|].
+      rewrite run_instrs_app, Rl. rewrite run_instrs_app, Rca.
+      rewrite run_instrs_app.
+      change (set_stack s (ca :: st0)) with (set_stack (set_stack s (ca :: st0)) (ca :: st0)).
+      rewrite Rr. change (set_stack (set_stack s (ca :: st0)) (cr :: ca :: st0))
+        with (set_stack s (cr :: ca :: st0)).
+      rewrite run_instrs_app, Rcb. exact Rop. }
+    destruct (Hrun (init_state m empty_script) []) as (cv & Vv & _).
+    exists cv. repeat split; auto. intros s st0.
+    destruct (Hrun s st0) as (cv' & Vv' & Rv'). rewrite Vv in Vv'. inversion Vv'; subst. exact Rv'.
+  - (* unary *)
+    cbn [eval_fixed] in He. set (aty := static_type_fixed a) in *.
+    destruct (is_num aty) eqn:Hn; [|discriminate]. cbn [negb] in He.
+    destruct (eval_fixed a) as [va| |] eqn:Ea; try discriminate. cbn [fx_bind] in He.
+    destruct (IHa va Hs eq_refl) as (Ta & la & ca & Ga & Va & Ra). fold aty in Va.
+    split; [cbn [type_ok_fixed]; rewrite Ta; fold aty; rewrite Hn; reflexivity|].
+    cbn [cg_fixed static_type_fixed]. rewrite Ga. cbn [cg_app]. fold aty.
+    destruct op.
+    + (* NEG *)
+      assert (Hk : match va with
+                   | PInt z => checked aty (PInt (- z))
+                   | PFlt f => checked aty (PFlt (fneg f))
+                   | PStrV _ => None end = Some v).
+      { destruct va; try discriminate; apply fx_checked_some; assumption. }
+      eexists.
+      assert (Hrun : forall s st0, exists cw, cell_of_val aty v = Some cw /\
+                run_instrs m (la ++ [INeg]) (set_stack s st0) = R tt (set_stack s (cw :: st0))).
+      { intros s st0. destruct (run_neg m aty va v ca s st0 Va Hk) as (cw & Vw & Rw).
+        exists cw. split; [assumption|]. rewrite run_instrs_app, Ra. cbn [run_instrs]. unfold bind.
+        rewrite Rw. reflexivity. }
+      destruct (Hrun (init_state m empty_script) []) as (cw & Vw & _).
+      exists cw. repeat split; auto. intros s st0.
+      destruct (Hrun s st0) as (cw' & Vw' & Rw'). cbn [un_type] in *. rewrite Vw in Vw'. inversion Vw'; subst. exact Rw'.
+    + (* PLUS *)
+      inversion He; subst. exists la, ca. repeat split; auto.
+    + (* NOT *)
+      set (rty := if aty =? 1 then 1 else 2) in *.
+      destruct (conv_fixed aty rty va) as [w0| |] eqn:Cw; try discriminate. cbn [fx_bind] in He.
+      destruct w0 as [z| |]; try discriminate. apply fx_checked_some in He.
+      eexists.
+      assert (Hrun : forall s st0, exists cw, cell_of_val rty v = Some cw /\
+                run_instrs m (la ++ conv_code aty rty ++ [INot]) (set_stack s st0)
+                = R tt (set_stack s (cw :: st0))).
+      { intros s st0. destruct (run_conv m aty rty va (PInt z) ca s st0 Cw Va) as (cz & Vz & Rz).
+        destruct (run_not m rty z cz v s st0 Vz He) as (cw & Vw & Rw).
+        exists cw. split; [assumption|]. rewrite run_instrs_app, Ra. rewrite run_instrs_app, Rz.
+        cbn [run_instrs]. unfold bind. rewrite Rw. reflexivity. }
+      destruct (Hrun (init_state m empty_script) []) as (cw & Vw & _).
+      exists cw. repeat split; auto. intros s st0.
+      destruct (Hrun s st0) as (cw' & Vw' & Rw'). cbn [un_type] in *. fold rty in Vw'.
+      rewrite Vw in Vw'. inversion Vw'; subst. exact Rw'.
+  - (* parentheses *)
+    cbn [eval_fixed] in He. destruct (IHa v Hs He) as (Ta & la & ca & Ga & Va & Ra).
+    split; [exact Ta|]. exists la, ca. repeat split; auto.
+Qed.
+
+(* the folder after the fix: a folded literal is exactly the cell the generated
+   code computes, for EVERY constant expression, operator, type and value *)
+Theorem fold_fixed_sound : forall e ty v, fold_fixed e = Folded ty v ->
+  exists c, cell_of_val ty v = Some c /\ rt_eval_fixed e = RVal c.
+Proof.
+  intros e ty v H. unfold fold_fixed in H.
+  destruct (eval_fixed e) as [w| |] eqn:E; try discriminate. inversion H; subst.
+  set (lits := lits_of e []). set (m := expr_module lits).
+  destruct (fixed_run m lits eq_refl e v (fun t Ht => lits_of_strs e [] t Ht) E)
+    as (Tok & l & c & G & V & Rn).
+  exists c. split; [assumption|]. unfold rt_eval_fixed. rewrite Tok. cbn [negb].
+  fold lits. rewrite G. fold m.
+  change (init_state m empty_script) with (set_stack (init_state m empty_script) []).
+  rewrite Rn. reflexivity.
+Qed.
+
+Theorem fold_fixed_keeps_traps : forall e code, rt_eval_fixed e = RTrap code ->
+  forall ty v, fold_fixed e <> Folded ty v.
+Proof.
+  intros e code Hr ty v Hf. destruct (fold_fixed_sound e ty v Hf) as (c & _ & Hc).
+  rewrite Hr in Hc. discriminate.
+Qed.
+
+Theorem fold_fixed_never_crashes : forall e k, fold_fixed e <> CompilerCrash k.
+Proof. intros e k. unfold fold_fixed. destruct (eval_fixed e); discriminate. Qed.
